@@ -152,14 +152,13 @@ class C18(Prop):
 
     def _heal_scripts(self, rng, mr, real, fam=None):
         n = max(mr, 0) + 3
-        fam = fam or rng.choice(["never", "atk", "alt", "echo", "raise", "long", "random", "random", "reassign"])
+        fam = fam or rng.choice(["never", "atk", "alt", "echo", "raise", "long", "random", "random"])
         k = rng.randint(0, n)
         if real:
             fs = "A"
             bad = rng.choice("ggeLMbsntKUP")
             gs = {"never": bad, "atk": bad * k + "j", "alt": (bad + "j") * n if k % 2 else ("j" + bad) * n,
                   "echo": "e", "raise": "g" * k + "x", "long": rng.choice("LM") + "e",
-                  "reassign": "".join(rng.choice("ggrRj") for _ in range(n)) + "g",
                   "random": "".join(rng.choice("gggjeLMxbsntKUP") for _ in range(n))}[fam]
         else:
             gs = rng.choice(["g", "g", "e", "ge", "L", "M", "gMe", "j", "".join(rng.choice("gjeLMbsntKUP") for _ in range(n)),
@@ -167,12 +166,10 @@ class C18(Prop):
             inv = rng.choice("IIIWNE")
             val = rng.choice("VVHQZBT")
             fs = {"never": inv, "atk": inv * k + val, "alt": (inv + val) if k % 2 else (val + inv),
-                  "echo": "I", "raise": inv * k + "X", "long": "IW", "reassign": inv * k + rng.choice([val, inv]),
+                  "echo": "I", "raise": inv * k + "X", "long": "IW",
                   "random": "".join(rng.choice("IIIWNEVHQZBTXA") for _ in range(n))}[fam]
             if fam == "alt":
                 fs = ("".join((inv, val)[(i + k) % 2] for i in range(n)))
-            if fam == "reassign":
-                gs = "".join(rng.choice("ggrR") for _ in range(n)) + "g"
         return gs or "-", fs or "-"
 
     def _gen_heal(self, rng):
@@ -198,11 +195,9 @@ class C18(Prop):
                 lines.append(f"hset decay {rng.choice(self.DECAYS)}")
             if rng.random() < 0.2:
                 lines.append(f"hset {rng.choice(['gen', 'chap'])} new")
-            fam = rng.choice(["never", "never", "atk", "reassign", None, None])
+            fam = rng.choice(["never", "never", "atk", None, None])
             gs, fs = self._heal_scripts(rng, mr, real, fam)
             lines.append(f"hcall {gs} {fs}")
-            if "r" in gs:
-                mr = 0            # rough tracking only (sizes the next scripts); the harness records the exact value
         return lines
 
     def _gen_supervise(self, rng, mreg, ms):
@@ -286,6 +281,16 @@ class C18(Prop):
             if i % 40 == 39:                      # malformed stream: unknown ops / wrong arity
                 yield {"lines": [rng.choice(["frob 1 2", "heal 3", "supervise w", "tools 1 1 1", "swarm 1", ""])
                                  or "nop", self._gen_heal(rng)], "note": "malformed"}
+                continue
+            if i % 25 == 17:
+                n = rng.randint(1, 6)
+                if rng.random() < 0.5:
+                    line = (f"hre {rng.choice([0, 1, 2, 3, 4])} {''.join(rng.choice('ggrR') for _ in range(n))}g "
+                            f"{rng.choice(['I', 'I', 'IIV', 'IV'])}")
+                else:
+                    line = (f"sre {rng.choice([0, 1, 2, 3])} {rng.choice([0, 1, 2, 3, 4])} "
+                            f"{''.join(rng.choice('wwlL') for _ in range(n))}w {''.join(rng.choice('uuulL') for _ in range(n))}u")
+                yield {"lines": [line], "note": "limits re-assigned by a callback during the call (oracle only)"}
                 continue
             if i % 25 == 7:
                 yield {"lines": [f"retools {rng.choice([0, 1, 2, 3, 4, 5, 6, -1])} {rng.choice([0, 1, 1, 2])} "
@@ -471,7 +476,15 @@ class C18(Prop):
             st["loop"], st["lbox"] = self._new_loop(3, 0.1, False)
         return self._heal_on(st["loop"], st["lbox"], script_of(t[1]), script_of(t[2]))
 
-    def _heal_on(self, loop, box, gs, fs):
+    def _hre(self, t):
+        """Oracle-only search (like retools): the generator itself re-assigns `loop.max_retries` while heal() is running
+        (item `r`: to 0, `R`: +2).  The property text does not say which value counts then, so the oracle only
+        requires calls <= (largest value the limit held during the call) + 1; the observation is the constant "ok"."""
+        loop, box = self._new_loop(intd(t[1]), 0.1, False)
+        _, info = self._heal_on(loop, box, script_of(t[2]), script_of(t[3]), reassign=True)
+        return "ok", info
+
+    def _heal_on(self, loop, box, gs, fs, reassign=False):
         real = box["real"]
         calls = []
         prop = self
@@ -488,7 +501,7 @@ class C18(Prop):
                 rec = {"p": prompt == "P<7>", "ctx": error_context, "out": "x", "fold": "-", "raw": None, "f": None}
                 calls.append(rec)
                 item = pick(gs, i, "g")
-                if item in "rR":          # the generator itself re-assigns the public limit of the loop that is calling it
+                if reassign and item in "rR":          # the generator itself re-assigns the public limit of the loop that is calling it
                     loop.max_retries = box["mr"] = 0 if item == "r" else box["mr"] + 2
                     in_force.append(box["mr"])
                 raw = prop._gen_raw(item, i, error_context)
@@ -583,6 +596,59 @@ class C18(Prop):
         elif t[2] != "new":
             return "bad-op"
         return "ok"
+
+    def _sre(self, t):
+        """Oracle-only search: factory (script 1) and worker steps (script 2) re-assign `max_regenerations` /
+        `max_steps_per_worker` of the swarm that is running them (`l`: to 0, `L`: +1; anything else leaves them).
+        Judged against the largest value each budget held during the call."""
+        mreg, ms = intd(t[1]), intd(t[2])
+        fs, ss = script_of(t[3]), script_of(t[4])
+        prop = self
+        seen = {"mreg": [mreg], "ms": [ms]}
+        spawns = []
+
+        class W:
+            def __init__(self, name):
+                self.id = name
+                self.memory = prop.rs.WorkerMemory()
+
+            def step(self, task):
+                rec = spawns[-1]
+                if rec["steps"] >= CAP:
+                    raise Runaway("step")
+                item = pick(ss, rec["steps"], "u")
+                rec["steps"] += 1
+                if item in "lL":
+                    sw.max_steps_per_worker = 0 if item == "l" else sw.max_steps_per_worker + 1
+                    seen["ms"].append(sw.max_steps_per_worker)
+                return f"out <{rec['steps']}> {len(spawns)}"
+
+        def fac(name, hints):
+            if len(spawns) >= CAP:
+                raise Runaway("factory")
+            item = pick(fs, len(spawns), "w")
+            spawns.append({"name": name, "steps": 0})
+            if item in "lL":
+                sw.max_regenerations = 0 if item == "l" else sw.max_regenerations + 1
+                seen["mreg"].append(sw.max_regenerations)
+            return W(name)
+        sw = self.rs.RegenerativeSwarm(worker_factory=fac, summarizer=lambda mem: [], entropy_threshold=0.9,
+                                       max_steps_per_worker=ms, max_regenerations=mreg, silent=True)
+        exc = None
+        try:
+            sw.supervise("T<7>")
+        except Exception as e:   # noqa
+            exc = e
+        return "ok", {"kind": "sre", "seen": seen, "spawns": spawns, "exc": exc}
+
+    def _oracle_sre(self, info, V):
+        top_r, top_s = max(info["seen"]["mreg"]), max(info["seen"]["ms"])
+        if len(info["spawns"]) > max(0, top_r + 1):
+            V("swarm_workers_le_regen_succ_reassigned", f"<= {max(0, top_r + 1)} workers (largest limit in force + 1)",
+              len(info["spawns"]))
+        for r in info["spawns"]:
+            if r["steps"] > max(0, top_s):
+                V("swarm_steps_le_max_reassigned", f"<= {max(0, top_s)} steps on {r['name']}", r["steps"])
 
     def _supervise(self, st, t):
         fs, ms_ = script_of(t[1]), script_of(t[3])
@@ -965,6 +1031,10 @@ class C18(Prop):
                 o = self._sset(st, t)
             elif len(t) == 4 and t[0] == "retools":
                 o, info = self._retools(t)
+            elif len(t) == 4 and t[0] == "hre":
+                o, info = self._hre(t)
+            elif len(t) == 5 and t[0] == "sre":
+                o, info = self._sre(t)
             else:
                 o = "bad-op"
             obs.append(o)
@@ -990,6 +1060,8 @@ class C18(Prop):
                 self._oracle_swarm(info, V)
             elif info["kind"] == "retools":
                 self._oracle_retools(info, V)
+            elif info["kind"] == "sre":
+                self._oracle_sre(info, V)
             else:
                 self._oracle_tools(info, V)
         return out
